@@ -505,12 +505,14 @@ def tags_grid(si):
             if "l" in t[7:11]:
                 tags.append("looped")
             tags.append("cache:" + t[11])
+        if any(x.startswith("len=") for x in t):
+            tags.append("from_length")
     if si.calls and si.calls[0].O.get("grid", [""])[0] == "err":
         tags.append("rejected")
     return tags
 
 
-GRID_SECTIONS = {"grid", "size", "nmax", "status", "area", "area_views_agree", "q", "qr", "iter", "base", "topo_model_agrees"}
+GRID_SECTIONS = {"grid", "spacing", "size", "nmax", "status", "area", "area_views_agree", "q", "qr", "iter", "base", "topo_model_agrees"}
 GRID_TB = ["tables of the grid model are regenerated from raster_grid.hpp / profile_grid.hpp / base.hpp by translate.py on every run",
            "xtensor view assignment semantics of set_nodes_status modelled by hand (tied by exhaustive border-mix correspondence)"]
 
